@@ -13,6 +13,8 @@ import (
 // Run a hermes simulation setup
 func (session *HermesSession) Run(workingDir string, args []string, logID string, out chan<- *RunReturn, logout chan<- string) {
 
+	verifTrace("run_start", logID)
+	verifDelay("run_start")
 	returnedWithErr := func() error {
 		// Shared
 		var SWCY float64
@@ -33,6 +35,8 @@ func (session *HermesSession) Run(workingDir string, args []string, logID string
 		var nitroSharedBBBVars NitroBBBSharedVars
 		//nitroSharedBBBVars.nleak = printToLimit(100)
 		var hermesWaterVar WaterSharedVars
+		vc := verifNewCtx(&g, &hermesWaterVar, &nitroSharedVars, &cropSharedVars, &herInputVars)
+		defer func() { verifRunEnd(vc, nil) }()
 
 		argValues := make(map[string]string)
 		for _, token := range args {
@@ -95,6 +99,7 @@ func (session *HermesSession) Run(workingDir string, args []string, logID string
 		}
 		driConfig := readConfig(&g, argValues, &herPath)
 		herPath.SetOutputExtension(driConfig.ResultFileExt)
+		verifSetConfig(vc, &driConfig)
 
 		if setFileExtension {
 			// handle file extension override, used to have multiple configurations in the same project at once
@@ -226,6 +231,7 @@ func (session *HermesSession) Run(workingDir string, args []string, logID string
 		}
 
 		Init(&g)
+		verifProbe(vc, "input_done", g.BEGINN, 0, 0, 0)
 
 		// ************ OEFFNEN UND ANLEGEN DES HEADERS FUER LANGZEITRECHNUNG PFLANZENERGEBNISSE ************
 		// ************ OPEN AND CREATE HEADER FOR LONG TERM CALCULATION OF CROP RESULTS ************
@@ -356,6 +362,7 @@ func (session *HermesSession) Run(workingDir string, args []string, logID string
 			}
 			g.AKTUELL = g.Kalender(ZEIT)
 
+			verifProbe(vc, "day_begin", ZEIT, 0, 0, 0)
 			oldGrW := g.GRW
 			if g.GROUNDWATERFROM == Polygonfile {
 				g.GRW = g.GW - (g.AMPL * math.Sin((g.TAG.Num+float64(g.GWPhase))*math.Pi/180))
@@ -489,7 +496,9 @@ func (session *HermesSession) Run(workingDir string, args []string, logID string
 				g.AKTUELL = g.Kalender(ZEIT)
 			}
 
+			verifProbe(vc, "pre_evatra", ZEIT, 0, 0, 0)
 			Evatra(&hermesWaterVar, &g, &herPath, ZEIT)
+			verifProbe(vc, "post_evatra", ZEIT, 0, 0, 0)
 
 			FSCS := 0.0
 			ZSR := 1.0
@@ -581,6 +590,7 @@ func (session *HermesSession) Run(workingDir string, args []string, logID string
 			}
 			for SUBD := 1; SUBD <= int(STEPS); SUBD++ {
 				Water(WDT, SUBD, ZEIT, &g, &hermesWaterVar)
+				verifProbe(vc, "post_water", ZEIT, SUBD, WDT, STEPS)
 				if SUBD == 1 {
 					SWC := 0.0
 					SWC1 = 0
@@ -621,7 +631,9 @@ func (session *HermesSession) Run(workingDir string, args []string, logID string
 				}
 				// ************ CALCULATION OF NITROGEN DYNAMICS ************
 				// ************ BERECHNUNG DER STICKSTOFFDYNAMIK ************
+				verifProbe(vc, "pre_nitro", ZEIT, SUBD, WDT, STEPS)
 				finished, err := Nitro(WDT, SUBD, ZEIT, &g, &nitroSharedVars, &nitroSharedBBBVars, &herPath, &cropOut)
+				verifProbe(vc, "post_nitro", ZEIT, SUBD, WDT, STEPS)
 				if err != nil {
 					return err
 				}
@@ -633,11 +645,13 @@ func (session *HermesSession) Run(workingDir string, args []string, logID string
 			for I := 1; I <= g.N; I++ {
 				g.PE[I-1] = 0
 			}
+			verifProbe(vc, "pre_denit", ZEIT, 0, WDT, STEPS)
 			if g.BART[0][0] == 'H' {
 				Denitmo(&g)
 			} else {
 				Denitr(&g, false)
 			}
+			verifProbe(vc, "day_end", ZEIT, 0, WDT, STEPS)
 
 			g.AKTUELL = g.Kalender(ZEIT)
 			if g.YORGAN == 0 {
@@ -744,6 +758,7 @@ func (session *HermesSession) Run(workingDir string, args []string, logID string
 			// ************ ENDE DUENGERBEDARFSPROGNOSE EINSCHUB ************
 			// ************ END OF FERTILIZATION FORECAST INSERTION ************
 
+			verifProbe(vc, "day_done", ZEIT, 0, 0, 0)
 			if ZEIT == g.ENDE {
 				break
 			}
@@ -776,6 +791,8 @@ func (session *HermesSession) Run(workingDir string, args []string, logID string
 			log.Fatal(result.String())
 		}
 	}
+	verifDelay("before_result")
+	verifTrace("run_end", logID)
 	// execution finished, send result to channel
 	if out != nil {
 		out <- result
